@@ -680,7 +680,7 @@ func gotAnswer(c *webClient, id string, sdp string) error {
 
 	add := func() {
 		down.pc.OnConnectionStateChange(nil)
-		for _, t := range down.tracks {
+		for _, t := range down.getTracks() {
 			err := t.remote.AddLocal(t)
 			if err != nil && err != os.ErrClosed {
 				log.Printf("Add track: %v", err)
